@@ -882,7 +882,10 @@ impl CompressionBmi2Dispatcher {
         if self.capabilities.has_bmi2 && self.config.enable_entropy_acceleration {
             Bmi2CompressionOps::extract_entropy_field(bit_stream, start_bit, field_length)
         } else {
-            // Software fallback
+            // Software fallback (a field starting beyond the word is empty, as on the BEXTR path)
+            if start_bit >= 64 {
+                return 0;
+            }
             let shifted = bit_stream >> start_bit;
             let mask = if field_length >= 32 { u32::MAX } else { (1u32 << field_length) - 1 };
             (shifted as u32) & mask
